@@ -590,7 +590,9 @@ func first(a, _ []byte) []byte { return a }
 //@ spec rootOK(r) = r.pointer == nil || okRef(r)
 //@ spec rootLive(r) = r.pointer == nil || liveChild(r)
 
-//@ spec LeafOK_{alpha,unsigned,signed,float,compound}(o) = as($KINDLeafNode, o).key.obj != nil && allocated(as($KINDLeafNode, o).key.obj) && 0 <= as($KINDLeafNode, o).key.idx && as($KINDLeafNode, o).key.idx + as($KINDLeafNode, o).len <= blen(as($KINDLeafNode, o).key.obj)
+//@ spec minLen_{alpha,unsigned,signed,float}() = 1
+//@ spec minLen_compound() = 0
+//@ spec LeafOK_{alpha,unsigned,signed,float,compound}(o) = as($KINDLeafNode, o).key.obj != nil && allocated(as($KINDLeafNode, o).key.obj) && 0 <= as($KINDLeafNode, o).key.idx && as($KINDLeafNode, o).key.idx + as($KINDLeafNode, o).len <= blen(as($KINDLeafNode, o).key.obj) && as($KINDLeafNode, o).len >= minLen_$KIND()
 //@ spec HeapOK_{alpha,unsigned,signed,float,compound}() = forallref(o, implies(inT(o) && allocated(o) && o != nil && !pooled(o), NodeOK(o) && implies(atype(o) == leafT(), LeafOK_$KIND(o))))
 //@ spec WF1_{alpha,unsigned,signed,float,compound}(t) = t != nil && allocated(t) && atype(t) == typeid($KINDSortedTree) && leafT() == typeid($KINDLeafNode) && rootOK(t.root) && HeapOK_$KIND()
 //@ spec WF1in_{alpha,unsigned,signed,float,compound}(t) = WF1_$KIND(t) && LinkedLive() && rootLive(t.root)
@@ -1031,3 +1033,40 @@ func first(a, _ []byte) []byte { return a }
 //@     invariant stacksOK(q, depths) && 0 - 1 <= i && i <= 255
 //@   loop 5 (i)
 //@     invariant stacksOK(q, depths) && 0 - 1 <= i && i <= 255
+
+// ---------------------------------------------------------------------------
+// Thin public wrappers (rung 1: safety and purity).
+
+//@ func (*{alpha,unsigned,signed,float,compound}SortedTree[K,V]).restoreKey
+//@   opt kind $KIND
+//@   opt casts on
+//@   opt extent on
+//@   requires t != nil && leafT() == typeid($KINDLeafNode) && ptr != nil && inT(ptr) && allocated(ptr) && !pooled(ptr) && atype(ptr) == leafT()
+//@   requires reveal(ptr) && LeafOK_$KIND(ptr)
+//@   ensures[pure] frame()
+//@   assigns B
+
+//@ func (*collationSortedTree[K,V]).restoreKey
+//@   opt kind collation
+//@   opt casts on
+//@   opt extent on
+//@   requires t != nil && leafT() == typeid(collateLeafNode) && ptr != nil && inT(ptr) && allocated(ptr) && !pooled(ptr) && atype(ptr) == leafT()
+//@   requires reveal(ptr) && LeafOK_collation(ptr)
+//@   ensures[pure] frame()
+//@   assigns B
+
+//@ func (*{alpha,unsigned,signed,float,compound,collation}SortedTree[K,V]).Minimum
+//@   opt kind $KIND
+//@   opt casts on
+//@   opt extent on
+//@   requires WF1in_$KIND(t)
+//@   ensures[pure] frame()
+//@   ensures[none_iff_empty] result2 == (old(t.root.pointer) != nil)
+
+//@ func (*{alpha,unsigned,signed,float,compound,collation}SortedTree[K,V]).Maximum
+//@   opt kind $KIND
+//@   opt casts on
+//@   opt extent on
+//@   requires WF1in_$KIND(t)
+//@   ensures[pure] frame()
+//@   ensures[none_iff_empty] result2 == (old(t.root.pointer) != nil)
